@@ -78,6 +78,9 @@ def cells(tier, seed):
     for bs, k1 in itertools.product([(), (2,), (2, 2)], KINDS[:-1]):
         for first in range(len(alpha((bs + (3,))[0], tier)) - (1 if bs else 0)):
             out.append({"what": "getitem", "bs": list(bs), "kind": k1, "N": 3, "first": first, "tier": tier})
+            if k1 == "dense" and len(bs) <= 1:
+                # the same index expressions under a raised variance floor: `variance` is clamped, the covariance of a marginal is not
+                out.append({"what": "getitem", "bs": list(bs), "kind": k1, "N": 3, "first": first, "tier": tier, "minvar": 10.0})
     return out
 
 
@@ -145,7 +148,12 @@ def run_cell(cell, seed):
     elif what == "ops":
         ops = run_ops(cell, g, fails)
     elif what == "getitem":
-        states, n = run_getitem(cell, g, fails, feats)
+        if cell.get("minvar"):
+            with gpytorch.settings.min_variance(double_value=cell["minvar"]):
+                states, n = run_getitem(cell, g, fails, feats)
+            states = [util.digest(["minvar", x]) for x in states]
+        else:
+            states, n = run_getitem(cell, g, fails, feats)
         notes["index_expressions_in_domain"] = n
         ops = n
     for f in fails:
